@@ -232,7 +232,7 @@ Definition body (fs : list fld) : bytes := DD ++ bnd ++ after fs.
 Definition fld_ok (f : fld) : Prop :=
   hdr (fh f) = HOk (fname f) (cl_of f) /\
   (exists h0, fh f = h0 ++ CRLF2 /\ find_sub CRLF2 (fh f) = Some (length h0)) /\
-  fcl f = false /\ clean bnd (fc f).
+  (fcl f = false -> clean bnd (fc f)).
 
 (* expected transcript (Pending removed, adjacent data merged) *)
 Definition exp_content (c : bytes) (k : list tev) : list tev :=
@@ -333,22 +333,19 @@ Proof.
     + destruct Hk as [Hk|Hk]; [congruence|]. rewrite Hk.
       replace (DD ++ bnd ++ (DD ++ [CR]) ++ [10]) with ((DD ++ bnd ++ DD) ++ CRLF)
         by (rewrite <- !app_assoc; reflexivity).
-      cbn [is_nil app DD]. rewrite strip_suffix_app.
-      change ([DASH; DASH] ++ bnd ++ [DASH; DASH]) with (DD ++ bnd ++ DD).
-      rewrite strip_prefix_app. rewrite bytes_eqb_app_neq by discriminate.
+      replace (is_nil ((DD ++ bnd ++ DD) ++ CRLF)) with false by reflexivity.
+      rewrite strip_suffix_app, strip_prefix_app. rewrite bytes_eqb_app_neq by discriminate.
       rewrite strip_suffix_app. cbn [opt_bytes_eqb]. rewrite bytes_eqb_refl. reflexivity.
     + replace (DD ++ bnd ++ [CR] ++ [10]) with ((DD ++ bnd) ++ CRLF)
         by (rewrite <- !app_assoc; reflexivity).
-      cbn [is_nil app DD]. rewrite strip_suffix_app.
-      change ([DASH; DASH] ++ bnd) with (DD ++ bnd).
-      rewrite strip_prefix_app, bytes_eqb_refl. reflexivity.
-  - destruct R as [R E]. rewrite R, E. split; [reflexivity|exact E].
+      replace (is_nil ((DD ++ bnd) ++ CRLF)) with false by reflexivity.
+      rewrite strip_suffix_app, strip_prefix_app, bytes_eqb_refl. reflexivity.
+  - destruct R as [R E]. rewrite R. cbn iota. rewrite E. split; reflexivity.
 Qed.
 
 Lemma lf_line_not_dd (x : bytes) : bytes_eqb (x ++ [10]) DD = false.
 Proof.
   apply bytes_eqb_neq. intro E. destruct x as [|a [|b [|c x]]]; cbn in E; try discriminate.
-  injection E as _ E. discriminate. injection E as _ _ E. destruct x; discriminate.
 Qed.
 
 (* Inner::read_boundary after a field *)
@@ -373,7 +370,7 @@ Proof.
       * intros ->. reflexivity.
       * intros N1 N2. apply bytes_eqb_neq in N1, N2. rewrite N1, N2, lf_line_not_dd. reflexivity.
     + reflexivity.
-  - destruct R as [R E]. rewrite R, E. split; [reflexivity|exact E].
+  - destruct R as [R E]. rewrite R. cbn iota. rewrite E. split; reflexivity.
 Qed.
 
 (* Inner::poll from state Headers *)
@@ -396,7 +393,455 @@ Proof.
     split; [reflexivity|]. apply Nat.leb_le in L.
     pose proof (good_skip p _ (length (fh f)) G L) as G2.
     rewrite skipn_app, skipn_all, Nat.sub_diag in G2. exact G2.
-  - destruct R as [R E]. rewrite R, E. split; [reflexivity|exact E].
+  - destruct R as [R E]. rewrite R. cbn iota. rewrite E. split; reflexivity.
+Qed.
+
+
+(* InnerField::poll on a scanned field (no Content-Length) *)
+Lemma content_poll p c r :
+  clean bnd c -> good p (c ++ delim bnd ++ after r) ->
+  match field_poll false false bnd (mkField true false None) p with
+  | (Ready (IData ch), f', p') =>
+      ch <> [] /\ exists c', c = ch ++ c' /\ f' = mkField true false None /\
+                            good p' (c' ++ delim bnd ++ after r) /\ p_stream p' = p_stream p
+  | (Ready IEnd, f', p') => c = [] /\ f' = mkField false true None /\ good p' (body r) /\
+                            p_stream p' = p_stream p
+  | (Ready (IErr _), _, _) => False
+  | (Pending, f', p') => f' = mkField true false None /\ p' = p /\ p_eof p = false
+  end.
+Proof.
+  intros Hc G. unfold field_poll. cbn [f_present f_eof f_length negb].
+  change (read_stream_gen false false p bnd) with (read_stream p bnd).
+  pose proof (read_stream_step p bnd c (after r) (good_prefix _ _ G) Hc) as St.
+  destruct (read_stream p bnd) as [[[| ch | e]|] p1] eqn:RS.
+  - destruct St as (-> & -> & (tail & Hb)).
+    rewrite (field_end_handoff _ p bnd tail Hb). cbn [f_eof f_length f_present].
+    split; [reflexivity|]. split; [reflexivity|]. split; [|reflexivity].
+    pose proof (good_skip p _ 2 G ltac:(rewrite Hb; unfold delim; cbn [length app]; lia)) as G2.
+    rewrite Hb in G2. exact G2.
+  - destruct St as (Nch & (c' & ->) & Hb & Hp). split; [exact Nch|]. exists c'.
+    split; [reflexivity|]. split; [reflexivity|]. split; [|rewrite Hp; reflexivity].
+    pose proof (good_skip p _ (length ch) G ltac:(rewrite Hb, app_length; lia)) as G2.
+    rewrite Hb in G2 at 1. rewrite skipn_app, skipn_all, Nat.sub_diag in G2. cbn [skipn app] in G2.
+    rewrite <- Hp in G2. rewrite <- app_assoc, skipn_app, skipn_all, Nat.sub_diag in G2. exact G2.
+  - destruct St as (-> & Eo & ->).
+    pose proof (read_stream_waits_short _ _ _ _ RS ltac:(right; eexists; reflexivity)) as L.
+    rewrite (good_eof _ _ G Eo), !app_length in L. unfold delim in L. cbn [length] in L. lia.
+  - destruct St as (Eo & ->). auto.
+Qed.
+
+
+(* the final readline of InnerField::poll, buffer at the delimiter *)
+Lemma stage2_poll f p r :
+  good p (delim bnd ++ after r) ->
+  if (2 <=? length (p_buf p))%nat
+  then field_stage2 f p = (Ready IEnd, mkField false (f_eof f) (f_length f), set_buf p (skipn 2 (p_buf p)))
+       /\ good (set_buf p (skipn 2 (p_buf p))) (body r)
+  else field_stage2 f p = (Pending, f, p) /\ p_eof p = false.
+Proof.
+  intro G. unfold field_stage2, readline.
+  pose proof (read_until_good [10] p _ 1%nat G eq_refl) as R. cbn zeta in R. cbn [length Nat.add] in R.
+  destruct (2 <=? length (p_buf p))%nat eqn:L.
+  - rewrite R. split; [reflexivity|]. apply Nat.leb_le in L. exact (good_skip p _ 2 G L).
+  - destruct R as [R E]. rewrite R. split; [reflexivity|exact E].
+Qed.
+
+Lemma lenN_cons_pos {A} (a : A) l : (lenN (a :: l) =? 0) = false.
+Proof. unfold lenN. cbn [length]. apply N.eqb_neq. lia. Qed.
+
+(* InnerField::poll on a field read by its Content-Length (read_len) *)
+Lemma cl_poll p c r :
+  good p (c ++ delim bnd ++ after r) ->
+  match field_poll false false bnd (mkField true false (Some (lenN c))) p with
+  | (Ready (IData ch), f', p') =>
+      ch <> [] /\ exists c', c = ch ++ c' /\ f' = mkField true false (Some (lenN c')) /\
+                            good p' (c' ++ delim bnd ++ after r) /\ p_stream p' = p_stream p
+  | (Ready IEnd, f', p') => c = [] /\ (exists e l, f' = mkField false e l) /\ good p' (body r) /\
+                            p_stream p' = p_stream p
+  | (Ready (IErr _), _, _) => False
+  | (Pending, f', p') => p' = p /\ p_eof p = false /\
+      (f' = mkField true false (Some (lenN c)) \/ (c = [] /\ f' = mkField true true (Some 0)))
+  end.
+Proof.
+  intro G. unfold field_poll. cbn [f_present f_eof f_length negb]. unfold read_len.
+  destruct c as [|c0 c1].
+  - change (lenN (@nil N)) with 0. rewrite N.eqb_refl. cbn [f_present f_length app] in *.
+    pose proof (stage2_poll (mkField true true (Some 0)) p r G) as S2.
+    destruct (2 <=? length (p_buf p))%nat.
+    + destruct S2 as [S2 G2]. rewrite S2. cbn [f_eof f_length].
+      split; [reflexivity|]. split; [eauto|]. split; [exact G2|reflexivity].
+    + destruct S2 as [S2 E]. rewrite S2. auto.
+  - rewrite lenN_cons_pos. unfold read_max.
+    destruct (p_buf p) as [|b0 bs] eqn:Hb; cbn [is_nil negb].
+    + destruct (p_eof p) eqn:Eo.
+      * exfalso. pose proof (good_eof _ _ G Eo) as X. rewrite Hb in X. discriminate.
+      * cbn [p_eof]. rewrite Eo. cbn [andb]. auto.
+    + rewrite <- Hb.
+      set (kk := Nat.min (length (p_buf p)) (length (c0 :: c1))).
+      assert (Ek : N.to_nat (N.min (lenN (p_buf p)) (lenN (c0 :: c1))) = kk) by (unfold lenN, kk; lia).
+      rewrite Ek.
+      assert (Lk : (1 <= kk)%nat) by (unfold kk; rewrite Hb; cbn [length]; lia).
+      assert (Lch : length (firstn kk (p_buf p)) = kk) by (rewrite firstn_length; unfold kk; lia).
+      assert (El : N.to_nat (N.min (lenN (firstn kk (p_buf p))) (lenN (c0 :: c1))) = kk)
+        by (unfold lenN; rewrite Lch; unfold kk; lia).
+      rewrite El. rewrite skipn_all2 by lia. cbn [is_nil negb]. rewrite firstn_all2 by lia.
+      assert (Ech : firstn kk (p_buf p) = firstn kk (c0 :: c1)).
+      { rewrite (firstn_good p _ kk G) by (unfold kk; lia).
+        rewrite firstn_app. replace (kk - length (c0 :: c1))%nat with O by (unfold kk; lia).
+        cbn [firstn]. apply app_nil_r. }
+      split; [intro Z; rewrite Z in Lch; cbn in Lch; lia|].
+      exists (skipn kk (c0 :: c1)). split; [rewrite Ech; symmetry; apply firstn_skipn|].
+      split.
+      { f_equal. f_equal. unfold lenN. rewrite Lch, skipn_length. unfold kk. lia. }
+      split; [|reflexivity].
+      pose proof (good_skip p _ kk G ltac:(unfold kk; lia)) as G2.
+      rewrite skipn_app in G2. replace (kk - length (c0 :: c1))%nat with O in G2 by (unfold kk; lia).
+      cbn [skipn] in G2. exact G2.
+Qed.
+
+(* ------------------------------------------------------------------ logical positions *)
+Inductive pos :=
+| PFirst (fs : list fld)                  (* before the first boundary line *)
+| PBoundary (fs : list fld)               (* at a boundary line after a field *)
+| PHeaders (f : fld) (fs : list fld)      (* at the header block of f *)
+| PContent (c : bytes) (fs : list fld)    (* inside a scanned field, c still to deliver *)
+| PContentCL (c : bytes) (fs : list fld)  (* inside a field read by Content-Length *)
+| PFieldEof (l : option N) (fs : list fld). (* field data finished, its closing CRLF not yet read *)
+
+Definition stream_of (q : pos) : bytes :=
+  match q with
+  | PFirst fs | PBoundary fs => body fs
+  | PHeaders f fs => fh f ++ fc f ++ delim bnd ++ after fs
+  | PContent c fs | PContentCL c fs => c ++ delim bnd ++ after fs
+  | PFieldEof _ fs => delim bnd ++ after fs
+  end.
+
+Definition expect (q : pos) : list tev :=
+  match q with
+  | PFirst fs | PBoundary fs => exp_fields fs
+  | PHeaders f fs => exp_fields (f :: fs)
+  | PContent c fs | PContentCL c fs => exp_content c (exp_fields fs)
+  | PFieldEof _ fs => TFieldEnd :: exp_fields fs
+  end.
+
+Definition state_ok (q : pos) (m : mp) (mode : dmode) : Prop :=
+  m_bnd m = bnd /\
+  match q with
+  | PFirst fs => mode = AtMp /\ m_state m = FirstBoundary /\ m_item m = None /\
+                 (fs <> [] \/ tlX = DD ++ [CR]) /\ Forall fld_ok fs
+  | PBoundary fs => mode = AtMp /\ m_state m = Boundary /\
+                    (m_item m = None \/ exists e l, m_item m = Some (mkField false e l)) /\
+                    Forall fld_ok fs
+  | PHeaders f fs => mode = AtMp /\ m_state m = Headers /\ m_item m = None /\ Forall fld_ok (f :: fs)
+  | PContent c fs => (exists n, mode = InField n) /\ m_state m = Boundary /\
+                     m_item m = Some (mkField true false None) /\ clean bnd c /\ Forall fld_ok fs
+  | PContentCL c fs => (exists n, mode = InField n) /\ m_state m = Boundary /\
+                       m_item m = Some (mkField true false (Some (lenN c))) /\ Forall fld_ok fs
+  | PFieldEof l fs => (exists n, mode = InField n) /\ m_state m = Boundary /\
+                      m_item m = Some (mkField true true l) /\ Forall fld_ok fs
+  end.
+
+Definition measure (q : pos) (m : mp) : nat := (length (p_stream (m_pb m)) + length (stream_of q))%nat.
+
+Notation drv := (drive hdr false false false None).
+
+Definition at_mp (k : nat) (x : poll mitem * bool * mp) : list tev :=
+  match x with
+  | (Pending, w, m1) => TPend w :: (if w then drv k m1 AtMp else [])
+  | (Ready MEnd, _, _) => [TEnd]
+  | (Ready (MErr e), _, _) => [TErr e]
+  | (Ready (MField name cl), _, m1) => TField name cl :: drv k m1 (InField 0)
+  end.
+
+Lemma drive_at_mp k m : drv (S k) m AtMp = at_mp k (mp_poll_next hdr false false false m).
+Proof. reflexivity. Qed.
+
+Definition in_field (k : nat) (n : N) (x : poll item * bool * mp) : list tev :=
+  match x with
+  | (Pending, w, m1) => TPend w :: (if w then drv k m1 (InField n) else [])
+  | (Ready IEnd, _, m1) => TFieldEnd :: drv k m1 AtMp
+  | (Ready (IErr e), _, _) => [TErr e]
+  | (Ready (IData b), _, m1) => TData b :: drv k m1 (InField (n + 1))
+  end.
+
+Lemma drive_in_field k m n : drv (S k) m (InField n) = in_field k n (field_poll_next false false false m).
+Proof. reflexivity. Qed.
+
+Lemma fin_good : tlX = DD ++ [CR] -> fin = TEnd.
+Proof.
+  intro E. destruct fin_spec as [[_ F]|(_ & N & _)]; [exact F|].
+  exfalso. apply N. rewrite E. reflexivity.
+Qed.
+
+Section Step.
+Variable k : nat.
+Hypothesis IH : forall q m mode,
+  good (m_pb m) (stream_of q) -> state_ok q m mode -> (measure q m < k)%nat ->
+  norm (drv k m mode) = expect q.
+
+(* the Headers part of Inner::poll, shared by the three AtMp positions *)
+Lemma headers_branch mm p w f r :
+  m_bnd mm = bnd -> Forall fld_ok (f :: r) ->
+  good p (fh f ++ fc f ++ delim bnd ++ after r) ->
+  (w = false -> p_eof p = true) ->
+  (length (p_stream p) + length (fh f ++ fc f ++ delim bnd ++ after r) <= k)%nat ->
+  (p_eof p = false -> (length (p_stream p) + length (fh f ++ fc f ++ delim bnd ++ after r) < k)%nat) ->
+  norm (at_mp k (let '(res, m1) := poll_headers hdr mm p in (res, w, m1))) = exp_fields (f :: r).
+Proof.
+  intros Eb Fo G W M M'. inversion Fo as [|? ? Ff Fr]; subst.
+  pose proof (headers_poll mm p f r Ff G Eb) as HP.
+  destruct (length (fh f) <=? length (p_buf p))%nat eqn:L.
+  - destruct HP as [HP G2]. rewrite HP. cbn [at_mp norm exp_fields]. f_equal.
+    destruct Ff as (_ & (h0 & Eh & _) & Hcl).
+    assert (Mm : (length (p_stream p) + length (fc f ++ delim bnd ++ after r) < k)%nat).
+    { rewrite !app_length in *. rewrite Eh, app_length in M. cbn [length CRLF2 CRLF app] in M. lia. }
+    unfold cl_of in *. destruct (fcl f) eqn:Ecl.
+    + apply (IH (PContentCL (fc f) r)).
+      * exact G2.
+      * split; [reflexivity|]. cbn. split; [exists 0; reflexivity|]. split; [reflexivity|].
+        split; [reflexivity|exact Fr].
+      * unfold measure. cbn [m_pb stream_of p_stream set_buf]. exact Mm.
+    + apply (IH (PContent (fc f) r)).
+      * exact G2.
+      * split; [reflexivity|]. cbn. split; [exists 0; reflexivity|]. split; [reflexivity|].
+        split; [reflexivity|]. split; [exact (Hcl eq_refl)|exact Fr].
+      * unfold measure. cbn [m_pb stream_of p_stream set_buf]. exact Mm.
+  - destruct HP as [HP E]. rewrite HP. cbn [at_mp].
+    assert (Hw : w = true) by (destruct w; [reflexivity|rewrite (W eq_refl) in E; discriminate]).
+    subst w. cbn [norm]. apply (IH (PHeaders f r)).
+    + exact G.
+    + split; [reflexivity|]. cbn. repeat split; auto.
+    + unfold measure. cbn [m_pb stream_of]. exact (M' E).
+Qed.
+End Step.
+
+
+Lemma body_len fs : length (body fs) = (line_len fs + length (snd (line_of fs)))%nat.
+Proof.
+  unfold body, line_len. rewrite (proj1 (after_line fs)), !app_length. cbn [length]. lia.
+Qed.
+
+Lemma woken_true (w : bool) (p : pb) : (w = false -> p_eof p = true) -> p_eof p = false -> w = true.
+Proof. intros W E. destruct w; [reflexivity|]. rewrite (W eq_refl) in E. discriminate. Qed.
+
+Lemma drive_exact : forall fuel q m mode,
+  good (m_pb m) (stream_of q) -> state_ok q m mode -> (measure q m < fuel)%nat ->
+  norm (drv fuel m mode) = expect q.
+Proof.
+  induction fuel as [|k IH]; intros q m mode G Sok M; [lia|].
+  destruct m as [p st it b]. destruct Sok as [Eb Sok]. cbn [m_bnd] in Eb. subst b.
+  unfold measure in M. cbn [m_pb] in *.
+  destruct (poll_stream_good p _ G) as (p1 & w & PS & G1 & W & Ms & Pr).
+  destruct q as [fs|fs|f fs|c fs|c fs|l fs]; cbn [stream_of expect] in *.
+  - (* before the first boundary line *)
+    destruct Sok as (-> & Est & Eit & Hk & Fo). cbn in Est, Eit. subst st it.
+    rewrite drive_at_mp. unfold mp_poll_next. cbn [m_pb m_state m_item m_bnd]. rewrite PS.
+    unfold inner_poll. cbn [m_state m_item m_pb m_bnd state_eqb].
+    pose proof (skip_first p1 fs G1 Hk) as SF. pose proof (body_len fs) as BL.
+    destruct (line_len fs <=? length (p_buf p1))%nat eqn:L.
+    + destruct SF as [SF G2]. rewrite SF. destruct fs as [|f r].
+      * cbn [at_mp norm exp_fields]. destruct Hk as [Hk|Hk]; [congruence|]. rewrite (fin_good Hk). reflexivity.
+      * cbn [line_of snd] in G2, BL.
+        apply (headers_branch k IH (mkMp p1 FirstBoundary None bnd)); auto;
+          unfold line_len in BL; cbn [p_stream set_buf]; intros; lia.
+    + destruct SF as [SF E]. rewrite SF. cbn [at_mp].
+      rewrite (woken_true w p1 W E). cbn [norm]. apply (IH (PFirst fs)).
+      * exact G1.
+      * split; [reflexivity|]. cbn. auto.
+      * unfold measure. cbn [m_pb stream_of]. destruct Pr as [Pr|Pr]; [lia|congruence].
+  - (* at a boundary line after a field *)
+    destruct Sok as (-> & Est & Eit & Fo). cbn in Est, Eit. subst st.
+    rewrite drive_at_mp. unfold mp_poll_next. cbn [m_pb m_state m_item m_bnd]. rewrite PS.
+    unfold inner_poll. cbn [m_state m_item m_pb m_bnd state_eqb].
+    assert (Rel : match it with
+                  | Some f => release false false (S (length (p_buf p1))) bnd f p1
+                  | None => RelDone None p1 end = RelDone None p1).
+    { destruct Eit as [->|(e & l & ->)]; [reflexivity|]. cbn [release]. unfold field_poll. cbn. reflexivity. }
+    rewrite Rel.
+    pose proof (boundary_read p1 fs G1) as BR. pose proof (body_len fs) as BL.
+    destruct (line_len fs <=? length (p_buf p1))%nat eqn:L.
+    + destruct BR as [G2 BR]. destruct fs as [|f r].
+      * destruct BR as [BR1 BR2]. destruct fin_spec as [[Ht Hf]|(N1 & N2 & Hf)].
+        -- rewrite (BR1 Ht). cbn [at_mp norm exp_fields]. rewrite Hf. reflexivity.
+        -- rewrite (BR2 N1 N2). cbn [at_mp norm exp_fields]. rewrite Hf. reflexivity.
+      * rewrite BR. cbn [line_of snd] in G2, BL.
+        apply (headers_branch k IH (mkMp p1 Boundary it bnd)); auto;
+          unfold line_len in BL; cbn [p_stream set_buf]; intros; lia.
+    + destruct BR as [BR E]. rewrite BR. cbn [at_mp].
+      rewrite (woken_true w p1 W E). cbn [norm]. apply (IH (PBoundary fs)).
+      * exact G1.
+      * split; [reflexivity|]. cbn. auto.
+      * unfold measure. cbn [m_pb stream_of]. destruct Pr as [Pr|Pr]; [lia|congruence].
+  - (* at a header block *)
+    destruct Sok as (-> & Est & Eit & Fo). cbn in Est, Eit. subst st it.
+    rewrite drive_at_mp. unfold mp_poll_next. cbn [m_pb m_state m_item m_bnd]. rewrite PS.
+    unfold inner_poll. cbn [m_state m_item m_pb m_bnd state_eqb].
+    apply (headers_branch k IH (mkMp p1 Headers None bnd)); auto; [lia|].
+    intro E. destruct Pr as [Pr|Pr]; [lia|congruence].
+  - (* inside a scanned field *)
+    destruct Sok as ((n & ->) & Est & Eit & Hc & Fo). cbn in Est, Eit. subst st it.
+    rewrite drive_in_field. unfold field_poll_next. cbn [m_pb m_state m_item m_bnd f_present negb]. rewrite PS.
+    pose proof (content_poll p1 c fs Hc G1) as CP.
+    destruct (field_poll false false bnd (mkField true false None) p1) as [[[[| ch | e]|] f1] p2].
+    + destruct CP as (-> & -> & G2 & Es). cbn [in_field norm exp_content is_nil app]. f_equal.
+      apply (IH (PBoundary fs)).
+      * exact G2.
+      * split; [reflexivity|]. cbn. split; [reflexivity|]. split; [reflexivity|]. split; [right; eauto|exact Fo].
+      * unfold measure. cbn [m_pb stream_of]. rewrite Es. clear - M Ms.
+        unfold body, delim, DD in *. rewrite !app_length in *. cbn [length] in *. lia.
+    + destruct CP as (Nch & c' & -> & -> & G2 & Es). cbn [in_field norm].
+      rewrite (IH (PContent c' fs) (mkMp p2 Boundary (Some (mkField true false None)) bnd) (InField (n + 1))).
+      * cbn [expect]. apply norm_data_content. exact Nch.
+      * exact G2.
+      * split; [reflexivity|]. cbn. split; [eauto|]. split; [reflexivity|]. split; [reflexivity|].
+        split; [exact (clean_suffix _ _ _ Hc)|exact Fo].
+      * unfold measure. cbn [m_pb stream_of]. rewrite Es. rewrite <- app_assoc in M.
+        rewrite (app_length ch) in M. destruct ch; [congruence|cbn [length] in M; lia].
+    + contradiction.
+    + destruct CP as (-> & -> & E). cbn [in_field].
+      rewrite (woken_true w p1 W E). cbn [norm]. apply (IH (PContent c fs)).
+      * exact G1.
+      * split; [reflexivity|]. cbn. split; [eauto|]. auto.
+      * unfold measure. cbn [m_pb stream_of]. destruct Pr as [Pr|Pr]; [lia|congruence].
+  - (* inside a field read by Content-Length *)
+    destruct Sok as ((n & ->) & Est & Eit & Fo). cbn in Est, Eit. subst st it.
+    rewrite drive_in_field. unfold field_poll_next. cbn [m_pb m_state m_item m_bnd f_present negb]. rewrite PS.
+    pose proof (cl_poll p1 c fs G1) as CP.
+    destruct (field_poll false false bnd (mkField true false (Some (lenN c))) p1) as [[[[| ch | e]|] f1] p2].
+    + destruct CP as (-> & (e & l & ->) & G2 & Es). cbn [in_field norm exp_content is_nil app]. f_equal.
+      apply (IH (PBoundary fs)).
+      * exact G2.
+      * split; [reflexivity|]. cbn. split; [reflexivity|]. split; [reflexivity|]. split; [right; eauto|exact Fo].
+      * unfold measure. cbn [m_pb stream_of]. rewrite Es. clear - M Ms.
+        unfold body, delim, DD in *. rewrite !app_length in *. cbn [length] in *. lia.
+    + destruct CP as (Nch & c' & -> & -> & G2 & Es). cbn [in_field norm].
+      rewrite (IH (PContentCL c' fs) (mkMp p2 Boundary (Some (mkField true false (Some (lenN c')))) bnd) (InField (n + 1))).
+      * cbn [expect]. apply norm_data_content. exact Nch.
+      * exact G2.
+      * split; [reflexivity|]. cbn. split; [eauto|]. split; [reflexivity|]. split; [reflexivity|exact Fo].
+      * unfold measure. cbn [m_pb stream_of]. rewrite Es. rewrite <- app_assoc in M.
+        rewrite (app_length ch) in M. destruct ch; [congruence|cbn [length] in M; lia].
+    + contradiction.
+    + destruct CP as (-> & E & Hf). cbn [in_field].
+      rewrite (woken_true w p1 W E). cbn [norm].
+      assert (Mp : (length (p_stream p1) < length (p_stream p))%nat) by (destruct Pr as [Pr|Pr]; [lia|congruence]).
+      destruct Hf as [->|[-> ->]].
+      * apply (IH (PContentCL c fs)).
+        -- exact G1.
+        -- split; [reflexivity|]. cbn. split; [eauto|]. auto.
+        -- unfold measure. cbn [m_pb stream_of]. lia.
+      * cbn [exp_content is_nil app]. apply (IH (PFieldEof (Some 0) fs)).
+        -- exact G1.
+        -- split; [reflexivity|]. cbn. split; [eauto|]. auto.
+        -- unfold measure. cbn [m_pb stream_of app] in *. lia.
+  - (* field data finished, closing CRLF not yet buffered *)
+    destruct Sok as ((n & ->) & Est & Eit & Fo). cbn in Est, Eit. subst st it.
+    rewrite drive_in_field. unfold field_poll_next. cbn [m_pb m_state m_item m_bnd f_present negb]. rewrite PS.
+    unfold field_poll. cbn [f_present f_eof negb].
+    pose proof (stage2_poll (mkField true true l) p1 fs G1) as S2.
+    destruct (2 <=? length (p_buf p1))%nat.
+    + destruct S2 as [S2 G2]. rewrite S2. cbn [in_field norm]. f_equal.
+      apply (IH (PBoundary fs)).
+      * exact G2.
+      * split; [reflexivity|]. cbn. split; [reflexivity|]. split; [reflexivity|]. split; [right; eauto|exact Fo].
+      * unfold measure. cbn [m_pb stream_of p_stream set_buf]. clear - M Ms.
+        unfold body, delim, DD in *. rewrite !app_length in *. cbn [length] in *. lia.
+    + destruct S2 as [S2 E]. rewrite S2. cbn [in_field].
+      rewrite (woken_true w p1 W E). cbn [norm]. apply (IH (PFieldEof l fs)).
+      * exact G1.
+      * split; [reflexivity|]. cbn. split; [eauto|]. auto.
+      * unfold measure. cbn [m_pb stream_of]. destruct Pr as [Pr|Pr]; [lia|congruence].
 Qed.
 
 End RT.
+
+(* ------------------------------------------------------------------ the theorems *)
+
+Definition close_line : bytes := DD ++ [CR].      (* "--" CR (LF follows): the close delimiter *)
+
+(* every chunking / Pending pattern of a valid body: exactly the rendered fields, then the end *)
+Theorem roundtrip_any_chunking :
+  forall (hdr : bytes -> hres) (bnd : bytes) (fs : list fld) (epilogue : bytes)
+         (script : list ev) (limit : N) (fuel : nat),
+  bnd <> [] -> ~ In 10 bnd -> Forall (fld_ok hdr bnd) fs -> no_err script ->
+  chunks script = body bnd close_line epilogue fs ->
+  lenN (chunks script) < limit ->
+  (length script + length (chunks script) < fuel)%nat ->
+  norm (drive hdr false false false None fuel (mp_new bnd script limit) AtMp) = exp_fields TEnd fs.
+Proof.
+  intros hdr bnd fs epi script limit fuel B1 B2 Fo Ne Eb Ll Lf.
+  assert (NX : ~ In 10 close_line) by (intros [H|[H|[H|[]]]]; discriminate).
+  apply (drive_exact hdr bnd B1 B2 close_line epi NX TEnd (or_introl (conj eq_refl eq_refl))
+                     fuel (PFirst fs)).
+  - unfold stream_of. rewrite <- Eb. unfold good, mp_new, pb_new. cbn. repeat split; auto. discriminate.
+  - split; [reflexivity|]. cbn. repeat split; auto.
+  - unfold measure, stream_of. rewrite <- Eb. cbn. exact Lf.
+Qed.
+
+(* whole-parser segmentation independence: two scripts carrying the same valid body deliver
+   the same fields *)
+Theorem segmentation_independent :
+  forall hdr bnd fs epilogue s1 s2 l1 l2 f1 f2,
+  bnd <> [] -> ~ In 10 bnd -> Forall (fld_ok hdr bnd) fs ->
+  no_err s1 -> no_err s2 ->
+  chunks s1 = body bnd close_line epilogue fs -> chunks s2 = chunks s1 ->
+  lenN (chunks s1) < l1 -> lenN (chunks s1) < l2 ->
+  (length s1 + length (chunks s1) < f1)%nat -> (length s2 + length (chunks s1) < f2)%nat ->
+  norm (drive hdr false false false None f1 (mp_new bnd s1 l1) AtMp) =
+  norm (drive hdr false false false None f2 (mp_new bnd s2 l2) AtMp).
+Proof.
+  intros. rewrite (roundtrip_any_chunking hdr bnd fs epilogue s1 l1 f1) by assumption.
+  rewrite (roundtrip_any_chunking hdr bnd fs epilogue s2 l2 f2); try assumption; try congruence.
+Qed.
+
+(* a malformed line after the last delimiter ("--boundary" followed by neither CRLF nor
+   "--" CRLF): every field before it is delivered exactly — none spans the delimiter — and the
+   run ends with Err(BoundaryMissing) *)
+Theorem malformed_delimiter_is_error :
+  forall hdr bnd fs (x rest : bytes) script limit fuel,
+  bnd <> [] -> ~ In 10 bnd -> Forall (fld_ok hdr bnd) fs -> fs <> [] -> no_err script ->
+  ~ In 10 x -> x ++ [10] <> CRLF -> x ++ [10] <> DD ++ CRLF ->
+  chunks script = body bnd x rest fs ->
+  lenN (chunks script) < limit ->
+  (length script + length (chunks script) < fuel)%nat ->
+  norm (drive hdr false false false None fuel (mp_new bnd script limit) AtMp)
+  = exp_fields (TErr EBoundary) fs.
+Proof.
+  intros hdr bnd fs x rest script limit fuel B1 B2 Fo Nf Ne NX N1 N2 Eb Ll Lf.
+  apply (drive_exact hdr bnd B1 B2 x rest NX (TErr EBoundary)
+                     (or_intror (conj N1 (conj N2 eq_refl))) fuel (PFirst fs)).
+  - unfold stream_of. rewrite <- Eb. unfold good, mp_new, pb_new. cbn. repeat split; auto. discriminate.
+  - split; [reflexivity|]. cbn. repeat split; auto.
+  - unfold measure, stream_of. rewrite <- Eb. cbn. exact Lf.
+Qed.
+
+(* non-vacuity: boundary "ab"; three parts: content  x CR LF - - a  (scanned), the empty
+   content (scanned), and a part with Content-Length 8 whose content is  CR LF - - a b CR LF
+   (the delimiter itself); delivered one byte per chunk with Pending after every chunk *)
+Definition ex_hdr (b : bytes) : hres :=
+  HOk (Some [lenN b]) (match b with 67 :: _ => Some 8 | _ => None end).
+Definition ex_fs : list fld :=
+  [mkFld [65;58;49;13;10;13;10] (Some [7]) false [120;13;10;45;45;97];
+   mkFld [66;58;13;10;13;10] (Some [6]) false [];
+   mkFld [67;58;56;13;10;13;10] (Some [7]) true [13;10;45;45;97;98;13;10]].
+Definition ex_script : list ev :=
+  flat_map (fun b => [EChunk [b]; EPending]) (body [97;98] close_line [101] ex_fs).
+
+Example roundtrip_example :
+  Forall (fld_ok ex_hdr [97;98]) ex_fs /\ no_err ex_script /\
+  chunks ex_script = body [97;98] close_line [101] ex_fs /\
+  norm (drive ex_hdr false false false None 1000 (mp_new [97;98] ex_script 65536) AtMp)
+  = [TField (Some [7]) None; TData [120;13;10;45;45;97]; TFieldEnd;
+     TField (Some [6]) None; TFieldEnd;
+     TField (Some [7]) (Some 8); TData [13;10;45;45;97;98;13;10]; TFieldEnd; TEnd].
+Proof.
+  split.
+  { apply Forall_cons; [|apply Forall_cons; [|apply Forall_cons; [|apply Forall_nil]]].
+    - split; [reflexivity|]. split; [exists [65;58;49]; split; reflexivity|].
+      intros _; apply cleanb_clean; reflexivity.
+    - split; [reflexivity|]. split; [exists [66;58]; split; reflexivity|].
+      intros _; apply cleanb_clean; reflexivity.
+    - split; [reflexivity|]. split; [exists [67;58;56]; split; reflexivity|].
+      intro H; discriminate. }
+  split; [vm_compute; exact I|]. split; vm_compute; reflexivity.
+Qed.
